@@ -25,7 +25,7 @@ pub fn meta(ctx: &Ctx) -> Meta {
         exhaustive: true,
         assumptions: vec![
             "hyper-parameters strictly positive (a literal 0 is replaced by a default in validate, which the statement does not cover)".into(),
-            "value tolerance max(4 ulp, 32*|f32 transcription - f64 reference|) + 1e-30; for run-length histories the f32 transcription error is accumulated along the history".into(),
+            "value tolerance max(4 ulp, 32*|f32 transcription - f64 reference|) + sum over the steps so far of 16*eps*(|update| + |parameter|) + 1e-30 (a parameter that is the difference of two large opposite updates carries their absolute rounding error)".into(),
             "centred RMSprop reference clamps E[g^2]-E[g]^2 at 0 (its exact value is never negative); once that difference falls below 1e-3 of E[g^2] in the exact reference the f32 value of the documented formula is rounding noise, and only finiteness is demanded for the rest of that history".into(),
         ],
     }
@@ -109,11 +109,17 @@ struct RefLane {
     ill: bool,
     /// a violation was already reported for this history; later steps are not judged again
     dead: bool,
+    /// rounding budget accumulated along the history: every step may contribute a few ulps of the size of its
+    /// update and of the parameter (a parameter that is the difference of two large opposite updates carries
+    /// the absolute error of those updates, not a relative error of its own size)
+    budget: f64,
 }
 
 fn judge(spec: &OptSpec, lane: &mut RefLane, g: f32, stepnr: i32, got: f32) -> Option<String> {
+    let before = lane.w64;
     lane.w64 = step(spec, &mut lane.s64, lane.w64, g as f64, stepnr);
     lane.w32 = step(spec, &mut lane.s32, lane.w32, g, stepnr);
+    lane.budget += 16.0 * f32::EPSILON as f64 * ((lane.w64 - before).abs() + before.abs().max(lane.w64.abs()));
     let r32_err = if lane.w32.is_finite() { (lane.w32 as f64 - lane.w64).abs() } else { f64::INFINITY };
     lane.drift = lane.drift.max(r32_err);
     if let OptSpec::Rms { centered: true, .. } = spec {
@@ -131,7 +137,7 @@ fn judge(spec: &OptSpec, lane: &mut RefLane, g: f32, stepnr: i32, got: f32) -> O
     if lane.ill {
         return None;
     }
-    let tol = (4.0 * ulp32(lane.w64 as f32) as f64).max(32.0 * lane.drift) + 1e-30;
+    let tol = (4.0 * ulp32(lane.w64 as f32) as f64).max(32.0 * lane.drift) + lane.budget + 1e-30;
     if (got as f64 - lane.w64).abs() > tol {
         return Some(format!("parameter {:e}, documented recurrence gives {:e} (tolerance {:e})", got, lane.w64, tol));
     }
@@ -140,7 +146,7 @@ fn judge(spec: &OptSpec, lane: &mut RefLane, g: f32, stepnr: i32, got: f32) -> O
 
 fn fresh_lanes() -> Vec<RefLane> {
     (0..LANES)
-        .map(|e| RefLane { w64: W0[e % 6] as f64, s64: St::fresh(), w32: W0[e % 6], s32: St::fresh(), drift: 0.0, ill: false, dead: false })
+        .map(|e| RefLane { w64: W0[e % 6] as f64, s64: St::fresh(), w32: W0[e % 6], s32: St::fresh(), drift: 0.0, ill: false, dead: false, budget: 0.0 })
         .collect()
 }
 
